@@ -12,14 +12,14 @@ open XrayModel.Perm
 namespace XrayDriver
 
 /-- parse one expression from a token list (fuel = number of tokens) -/
-def parseExpr : Nat → List String → Option (Expr × List String)
+def permParseExpr : Nat → List String → Option (Expr × List String)
   | 0, _ => none
   | fuel + 1, toks =>
     let rec many (k : Nat) (ts : List String) (acc : List Expr) : Option (List Expr × List String) :=
       match k with
       | 0 => some (acc.reverse, ts)
       | k + 1 =>
-        match parseExpr fuel ts with
+        match permParseExpr fuel ts with
         | some (e, ts') => many k ts' (e :: acc)
         | none => none
     match toks with
@@ -33,9 +33,9 @@ def parseExpr : Nat → List String → Option (Expr × List String)
         | none => none
       | _, _ => none
     | "S" :: r =>
-      match parseExpr fuel r with
+      match permParseExpr fuel r with
       | some (a, r1) =>
-        match parseExpr fuel r1 with
+        match permParseExpr fuel r1 with
         | some (b, r2) => some (.seq a b, r2)
         | none => none
       | none => none
@@ -44,7 +44,7 @@ def parseExpr : Nat → List String → Option (Expr × List String)
       | some n =>
         match many n r [] with
         | some (as, r1) =>
-          match parseExpr fuel r1 with
+          match permParseExpr fuel r1 with
           | some (b, r2) => some (.wrap as b, r2)
           | none => none
         | none => none
@@ -52,13 +52,13 @@ def parseExpr : Nat → List String → Option (Expr × List String)
     | "T" :: n :: r =>
       match n.toNat? with
       | some n =>
-        match parseExpr fuel r with
+        match permParseExpr fuel r with
         | some (b, r1) => some (.thunk b n, r1)
         | none => none
       | none => none
     | _ => none
 
-def cfgOf (cfg : String) : Option PermissionSet :=
+def permCfgOf (cfg : String) : Option PermissionSet :=
   let cs := cfg.toList
   let ps := Generated.Permissions.permissions
   if cs.length != ps.length then none else
@@ -69,7 +69,7 @@ def cfgOf (cfg : String) : Option PermissionSet :=
     | '-' => some acc
     | _ => none) []
 
-def showRes : Res → String
+def permShowRes : Res → String
   | .val => "val"
   | .err => "err"
   | .viol id => "viol:" ++ id
@@ -84,10 +84,10 @@ def permEngine (f : String) (args : List String) : String :=
   | "perms", [] =>
     String.intercalate ";" (Generated.Permissions.permissions.map (fun (c, p) => s!"{c}|{p.id}|{p.default}"))
   | "run", cfg :: fuel :: toks =>
-    match cfgOf cfg, fuel.toNat?, parseExpr (toks.length + 1) toks with
+    match permCfgOf cfg, fuel.toNat?, permParseExpr (toks.length + 1) toks with
     | some P, some fuel, some (e, []) =>
       let (r, l) := eval Generated.Permissions.sites P fuel e []
-      s!"{showRes r} w={countKind .writer l} c={countKind .clock l} r={countKind .rng l} x={countKind .regex l} s={countKind .sleep l}"
+      s!"{permShowRes r} w={countKind .writer l} c={countKind .clock l} r={countKind .rng l} x={countKind .regex l} s={countKind .sleep l}"
     | _, _, _ => "bad-op"
   | _, _ => "bad-op"
 
